@@ -175,13 +175,16 @@ PROPS["C19"] = {
 PROPS["C12"] = {
     "level": "exploration",
     "technique": "model-based stateful property testing (rapid) + bounded-exhaustive enumeration of short histories; invariant over assignments + determinism between two replicas",
-    "level_text": 'histories of join/leave/expire/stream-delete/stream-create over one consumer group (<=5 members, <=3 streams, 1-5 partitions) on the real consumerGroup object; after every step: every partition of every subscribed stream has exactly one owner who subscribed to it, nobody holds foreign or non-existent partitions, single-stream groups differ by <=1, a second object fed the same history (optionally rebuilt from a snapshot of its members in another order) hands out identical assignments, a stale epoch is refused',
+    "level_text": 'histories of join/leave/expire/stream-delete/stream-create over one consumer group (<=5 members, <=3 streams, 1-5 partitions) on the real consumerGroup object; after every step: every partition of every subscribed stream has exactly one owner who subscribed to it, nobody holds foreign or non-existent partitions, single-stream groups differ by <=1, a second object fed the same history (optionally rebuilt from a snapshot of its members in another order) hands out identical assignments, a stale epoch is refused. Unit C12exh runs EVERY sequence of up to 5 (thorough: 6) operations over a 14-letter alphabet (join of m0-m2 to {s0},{s1},{s0,s1}; leave of m0-m2; delete and re-create of s0; s0 has 2 then 3 partitions, s1 has 3) through the same executor and oracle',
     "level_note": 'object level (the metadata layer around it is exercised by C06); timers set to 1h so expiry is a generated operation',
-    "rule": 'rapid draws 1-25 operations with preconditions resolved at run time. Non-trivial = >=3 members with overlapping subscriptions and a later leave/expire/stream delete.',
+    "rule": 'rapid draws 1-25 operations with preconditions resolved at run time. Non-trivial = >=3 members with overlapping subscriptions and a later leave/expire/stream delete. C12exh: 579,194 sequences (quick) / 8,108,730 (thorough), complete for its alphabet and length bound (coverage.exhaustive_units).',
     "assumptions": TRUST,
     "units": [
         {"name": "C12", "pkg": "server", "test": "TestVerifC12",
          "quick": {"shards": 16, "checks": 2000}, "thorough": {"shards": 16, "checks": 20000, "timeout": 3000}},
+        # bounded-exhaustive: every sequence of <= LEN operations over a 14-letter alphabet (3 members, 2 streams)
+        {"name": "C12exh", "pkg": "server", "test": "TestVerifC12Exh", "kind": "exhaustive",
+         "quick": {"shards": 16, "params": {"LEN": 5}}, "thorough": {"shards": 16, "params": {"LEN": 6}, "timeout": 3000}},
     ],
 }
 
@@ -234,13 +237,17 @@ PROPS["C11"] = {
     "level_text": ("histories of SetCursor/FetchCursor over 3-40 (thorough: 600 > cache size) cursor keys on a started single-node server with a 2-partition cursors stream and tiny "
                    "segments, interleaved with forced compaction of the cursors partitions, cache purges (what a leadership change does), cache bypass, pausing the cursors stream "
                    "(auto-resumed by the next call) and server restarts; every FetchCursor that returns without error must return the value of the last successful SetCursor (or -1); "
-                   "a final sweep fetches every key through the log and through the cache"),
-    "level_note": "single node (no cursors-partition leader change between brokers); an error return is not a violation (counted, >20% makes the case inconclusive)",
-    "rule": "rapid draws key count and 4-40 operations (set, burst of sets, fetch, clean, purge, cache toggle, pause, restart). Non-trivial = at least one forced clean after cursors were stored (so later fetches read compacted, non-newest segments).",
+                   "a final sweep fetches every key through the log and through the cache. Unit C11b: three bare servers sharing one NATS server with a 3-replica cursors partition (the harness plays the Raft log, replication is real); "
+                   "SetCursor/FetchCursor/clean on the current leader interleaved with changes of the cursors-partition leader among the three (also back to an earlier leader, whose cache must have been purged); "
+                   "a fetch on the new leader must return the last acknowledged SetCursor"),
+    "level_note": "C11 unit: single node; C11b unit: leader changes are applied by the new leader first (the opposite order is the territory of the open finding C02-hw-truncation-fallback); an error return is not a violation (counted, >20% makes the case inconclusive); a failed SetCursor makes both the old and the new value acceptable",
+    "rule": "rapid draws key count and 4-40 operations (set, burst of sets, fetch, clean, purge, cache toggle, pause, restart). Non-trivial = at least one forced clean after cursors were stored (so later fetches read compacted, non-newest segments). C11b: 5-40 operations over 4 keys; non-trivial = a fetch answered correctly after at least one leader change.",
     "assumptions": TRUST,
     "units": [
         {"name": "C11", "pkg": "server", "test": "TestVerifC11",
          "quick": {"shards": 8, "checks": 25}, "thorough": {"shards": 16, "checks": 300, "timeout": 3000}},
+        {"name": "C11b", "pkg": "server", "test": "TestVerifC11b",
+         "quick": {"shards": 8, "checks": 30}, "thorough": {"shards": 16, "checks": 400, "timeout": 3000}},
     ],
 }
 
